@@ -13,7 +13,6 @@ into `profile.agent` (they return the chosen ActionProtein or raise), weights go
   * sys.monitoring PY_START reach counters on the anchored functions (keyed by qualname).
 """
 import itertools
-import math
 import sys
 
 from rv import core
